@@ -3,6 +3,7 @@
 Part A: `filter_hypergraph` on Hypergraph / TemporalHypergraph / MultiplexHypergraph / DirectedHypergraph
         vs `C19.filterHg` (lean/Hgxv/Model/C19.lean) + an oracle written from the property's words.
 Part B: `get_svh` vs `C19.svh` (exact rational binomial tail) + an oracle with `fractions.Fraction`."""
+import collections
 import decimal
 import functools
 import math
@@ -34,8 +35,14 @@ RULE = ("A: random containers of the four types (3-7 nodes, 1-9 records of size 
         "in place BEFORE the content is read; in 30% a second filter_hypergraph call on the same object; distinct by (type, "
         "content, criteria, containers, mode, keep_edges); non-trivial when the criteria keep >=1 and remove >=1 item. "
         "B: Hypergraphs with positive integer "
-        "weights in four styles: random (3-9 nodes, 1-12 hyperedges of size 1-5, heavy-tailed weights, a few heavy disjoint "
-        "ones), twins (2-5 nearly disjoint hyperedges per size with equal or neighbouring weights: tied / close p-values), "
+        "weights in five styles: random (3-9 nodes, 1-12 hyperedges of size 1-5, heavy-tailed weights, a few heavy disjoint "
+        "ones; 15% dense: most of the C(n_a,n) hyperedges of one or two sizes on 3-6 nodes), twins (2-5 nearly disjoint "
+        "hyperedges per size with equal or neighbouring weights: tied / close p-values; 50% close: k twins of one weight, all "
+        "but one or two with a weight-1 hyperedge of the same size on one node, so that several TIED p-values sit a factor "
+        "~2.5 above the smallest and the smallest p_(i)/i is at the last of them), sparse (recipes: 20-1200 (thorough 3600) "
+        "hyperedges of ONE size 4-14 seen once on up to 50000 nodes, disjoint or sharing 1-15% of their nodes, 0-4 of them "
+        "with weight 2-4, a few small extra hyperedges, unweighted in 40%: prod K_i/N = 1e-8 .. 1e-45, every p-value tiny "
+        "and none 0; six per quick run at fixed positions + 3.5% by the dice, one of them with mp=True), "
         "big_size (sizes 6-12, weights 20-400, shared core: prod K_i >= 2^63) and big_weight (sizes 2-6, weights 200-3000, "
         "one case per quick run and 3% of the thorough magnitude cases beyond 2^15 / 2^16); labels mapped order-preservingly to "
         "one kind per case (small ints, run-time strings, ints > 256, integer bands below and above 2^53 / 2^63 / 2^64 / 2^70 in "
@@ -45,7 +52,12 @@ RULE = ("A: random containers of the four types (3-7 nodes, 1-9 records of size 
         "inserted and removed, weights arriving in two instalments, isolated nodes); max_order 0-6, 10, around the largest "
         "size, 12, 20; alpha from {0.01, 0.05, 0.2, 0.5, 1.0} or (40%, twins 70%) strictly between two neighbouring "
         "breakpoints C(n_a,n) p_(i)/i of the exact p-values, preferring alphas for which the positions below the step-up "
-        "line are NOT a prefix; mp=True for 1 case in 90 (quick) / 250 (thorough); distinct by (edges, weights, max_order, "
+        "line are NOT a prefix; ON THE LINE: after the first call 60% of the cases (all dense / close ones) get a further "
+        "call on a rebuilt object with alpha = p_(i) C(n_a,n) / i taken from the p-values the implementation has just "
+        "reported, searched among the doubles just below that quotient so that the exact line i alpha/C is <= p_(i) and the "
+        "double evaluations i*(alpha/C) and (i*alpha)/C both give p_(i) bit for bit (else another rank / no such call), "
+        "preferring (85%) ranks where counting `p == line` as below would change the validated set; 58% exactly on the "
+        "line, the others next to it (alpha (1 +- 1e-6 / 1e-9 / 1e-11), +-1, +-2 ulps); mp=True for 1 case in 90 (quick) / 250 (thorough); distinct by (edges, weights, max_order, "
         "alpha, mp); non-trivial when >=2 sizes are reported and some but not all rows are validated, or >=1 row has "
         "weight >= 2, or some table's positions below the line are not a prefix")
 ASSUMPTIONS = ["hyperedges are duplicate-free node tuples; directed ones have disjoint non-empty sides (quantifier)",
@@ -68,9 +80,11 @@ TRUSTED = ["scipy.stats.binom.sf is a parameter of the model; compared on every 
            "relative tolerance 1e-9 (+1e-300 for underflow), else the row must lie between the tails for "
            "prod K_i/N * (1 -+ 1e-13) (counted, svh_p_conditioning_*); rows whose total weight allows it (rows*N^2 <= 3e5) "
            "are also compared with the model's exact rational tail",
-           "threshold decisions are taken on the Python p-values converted exactly (float.as_integer_ratio); decisions whose "
-           "relative margin is below 1e-12 are skipped and counted (svh_margin_skips) unless both sides are the same "
-           "number and the line alpha*i/C is free of rounding"]
+           "threshold decisions are taken on the Python p-values converted exactly (float.as_integer_ratio) against the exact "
+           "line i*alpha/C(n_a,n); a p-value within 1e-12 (relative) of its line - on it or next to it - is decided only when "
+           "the exact comparison and the double evaluations i*(alpha/C) and (i*alpha)/C all give the same answer (C a double "
+           "that scipy.special.binom reproduces exactly), with the property's STRICT inequality: p on its line is not below "
+           "it; otherwise the table is skipped and counted (svh_margin_skips)"]
 BUDGET_S = {"quick": 45, "thorough": 780}
 
 ATTRS = ["type", "age", "country", "k"]
@@ -858,6 +872,7 @@ TWO63 = 2 ** 63
 REL = Fraction(1, 10 ** 9)            # relative tolerance of a reported p-value
 FLOOR = Fraction(1, 10 ** 300)        # below this a p-value may have underflowed
 RMARGIN = Fraction(1, 10 ** 12)       # relative margin of a float threshold decision
+TINY = Fraction(1, 10 ** 12)         # p-values below this are counted (svh_rows_p_below_1e-12)
 MODEL_COST = 300000                   # rows * N^2 above which a case is not sent to the model (its `choose` is factorial based)
 FIXED_ALPHAS = [0.01] * 4 + [0.05, 0.2, 0.5, 1.0]
 
@@ -949,41 +964,114 @@ def p_ok(p, n, N, w, ks):
     return (lo * (1 - REL) - FLOOR <= pf <= hi * (1 + REL) + FLOOR), want, True
 
 
-def representable(x):
-    """the rational x is a double"""
-    try:
-        return Fraction(float(x)) == x
-    except OverflowError:
+@functools.lru_cache(maxsize=None)
+def binom_is_double(na, n):
+    """C(na, n) is a double and scipy.special.binom - what get_svh divides alpha by - returns exactly it"""
+    from scipy.special import binom
+    C = math.comb(na, n)
+    return C < 2 ** 53 and float(binom(na, n)) == C
+
+
+def line_readings(i, alpha, C, dbl=True):
+    """every evaluation of the line i * alpha / C(n_a, n) of position i: the exact rational first, then - when C is a
+    double - the double evaluations i * (alpha / C) (the order get_svh uses) and (i * alpha) / C"""
+    a = Fraction(alpha)
+    out = [a * i / C]
+    if dbl and C < 2 ** 53:
+        x, c = float(alpha), float(C)
+        for v in (i * (x / c), (i * x) / c):
+            out.append(Fraction(v))
+    return out
+
+
+def below(p, readings):
+    """is p strictly below the line? True / False; None = not decidable. Farther than RMARGIN (relative) from the exact
+    line the exact comparison decides. Closer - the p-value sits on or next to its line - a decision is taken only when
+    EVERY reading of the rule, the exact one and each double evaluation, gives the same answer (so p exactly ON a line
+    that every evaluation reproduces exactly is NOT below it: the property's inequality is strict)"""
+    ex = readings[0]
+    if ex <= 0:
         return False
+    if abs(p - ex) > RMARGIN * ex:
+        return p < ex
+    if len(readings) == 1:
+        return None
+    answers = {p < r for r in readings}
+    return answers.pop() if len(answers) == 1 else None
 
 
-def undecidable(p, line, exact):
-    """a float comparison of p with `line` cannot be trusted: closer than RMARGIN (relative), unless both are the
-    same number and the line is computed without rounding (`exact`)"""
-    d = abs(p - line)
-    return d <= RMARGIN * line and not (d == 0 and exact)
-
-
-def step_up(ps, alpha, C):
-    """threshold from the property's words with bonf = alpha / C: the largest i*bonf such that the i-th smallest p-value
-    is below it; tight = some comparison is not decidable for float arithmetic;
-    prefix = the positions below the line are exactly the first ones;
-    exact(i) = alpha/C, i*alpha/C and i*alpha are doubles, so any float evaluation of the line is exact"""
-    bonf = alpha / C
+def step_up(ps, alpha, C, dbl=True):
+    """threshold from the property's words with bonf = alpha / C: the line i*bonf of the LAST i whose i-th smallest
+    p-value is strictly below it (0 when there is none), as the list of its readings;
+    tight = some position is not decidable; prefix = the positions below the line are exactly the first ones;
+    near = number of positions within RMARGIN of their line that were decided all the same"""
     s = sorted(ps)
-
-    def exact(i):
-        return representable(bonf) and representable(i * bonf) and representable(i * alpha)
-
-    thr, tight, mask, thr_exact = Fraction(0), False, [], True
+    thr, tight, mask, near = [Fraction(0)], False, [], 0
     for i, p in enumerate(s, start=1):
-        if undecidable(p, i * bonf, exact(i)):
-            tight = True
-        mask.append(p < i * bonf)
-        if p < i * bonf:
-            thr, thr_exact = i * bonf, exact(i)
+        r = line_readings(i, alpha, C, dbl)
+        b = below(p, r)
+        if b is None:
+            tight, b = True, p < r[0]
+        elif abs(p - r[0]) <= RMARGIN * r[0]:
+            near += 1
+        mask.append(b)
+        if b:
+            thr = r
     prefix = all(mask[:sum(mask)])
-    return thr, tight, prefix, thr_exact
+    return thr, tight, prefix, near
+
+
+def ulps(x, k):
+    for _ in range(abs(k)):
+        x = math.nextafter(x, math.inf if k > 0 else -math.inf)
+    return x
+
+
+def on_the_line(p, i, C):
+    """a double alpha in (0, 1] for which the i-th line is the double p in EVERY reading that is not above p: exactly
+    i*alpha/C <= p, and each double evaluation of the line gives p itself; None when the neighbourhood of p*C/i has no
+    such double. (Then `p < line` is false however the line is evaluated.)"""
+    if not (0 < p) or C >= 2 ** 53:
+        return None
+    want = Fraction(p) * C / i
+    if want > 1 or want < Fraction(1, 10 ** 300):
+        return None
+    a = float(want)
+    if Fraction(a) > want:
+        a = math.nextafter(a, 0.0)
+    for _ in range(4):
+        if 0 < a <= 1 and all(r == Fraction(p) for r in line_readings(i, a, C)[1:]):
+            return a
+        a = math.nextafter(a, 0.0)
+    return None
+
+
+def flags_by_rule(s, alpha, C, strict=True):
+    """validated flags of the sorted doubles s under the step-up rule in exact arithmetic, a position ON its line in
+    the double evaluation i*(alpha/C) counted as below iff not `strict`"""
+    thr = None
+    for i, p in enumerate(s, start=1):
+        line = i * (float(alpha) / float(C))
+        hit = (p < line) if (strict or p != line) else True
+        if hit:
+            thr = line
+    return [thr is not None and p < thr for p in s]
+
+
+def line_alphas(tables):
+    """tables = [(n, C, sorted double p-values)]: every (n, i, alpha, telling, clean) with the i-th smallest p-value of
+    size n exactly on its line for that alpha; telling = counting that position as below its line would change the
+    validated set; clean = also the exact rational line equals the p-value"""
+    out = []
+    for n, C, s in tables:
+        for i in range(1, len(s) + 1):
+            p = s[i - 1]
+            a = on_the_line(p, i, C)
+            if a is None:
+                continue
+            telling = flags_by_rule(s, a, C, True) != flags_by_rule(s, a, C, False)
+            out.append((n, i, a, telling, Fraction(a) * i / C == Fraction(p)))
+    return out
 
 
 def alpha_breakpoints(E, bound):
@@ -1055,9 +1143,12 @@ def svh_edges_random(rng, labels, weighted):
     return edges
 
 
-def svh_edges_twins(rng, labels):
+def svh_edges_twins(rng, labels, close=False):
     """per size 2-5 (nearly) disjoint hyperedges of (nearly) equal weight, so that the sorted p-values are tied or close
-    and p_(i)/i is not increasing; plus a few light hyperedges"""
+    and p_(i)/i is not increasing; plus a few light hyperedges.
+    close: the twins of a size have ONE weight and differ by a light hyperedge of the same size hanging on one of their
+    nodes (degrees K_i differ by 1 or 2): p-values that are distinct but within a small factor of each other, so that
+    the smallest p_(i)/i is not at i = 1"""
     pool = labels[:]
     rng.shuffle(pool)
     edges, seen = [], set()
@@ -1074,13 +1165,74 @@ def svh_edges_twins(rng, labels):
             if e in seen:
                 continue
             seen.add(e)
-            edges.append([list(e), max(1, w0 + rng.choice([0, 0, 0, 0, 1, -1, -1, 2, -3]))])
+            edges.append([list(e), w0 if close else max(1, w0 + rng.choice([0, 0, 0, 0, 1, -1, -1, 2, -3]))])
+            others = [x for x in labels if x not in e]
+            if close and rng.random() < 0.6 and len(others) >= size - 1:
+                f = tuple(sorted([rng.choice(e)] + rng.sample(others, size - 1)))
+                if f not in seen:
+                    seen.add(f)
+                    edges.append([list(f), rng.choice([1, 1, 2])])
     for _ in range(rng.randint(0, 3)):
         size = min(len(labels), rng.choice([1, 2, 2, 3]))
         e = tuple(sorted(rng.sample(labels, size)))
         if e not in seen:
             seen.add(e)
             edges.append([list(e), rng.choice([1, 1, 2])])
+    rng.shuffle(edges)
+    return edges
+
+
+def svh_edges_close(rng, labels):
+    """per size k disjoint hyperedges of ONE weight w0; all but one or two of them carry a weight-1 hyperedge of the same
+    size on one of their nodes (that node's degree is w0+1, the other nodes of the light hyperedges are shared and lie
+    outside): a few smallest p-values p0 and several TIED p-values p ~ 2.5 p0 right above them, so that the smallest
+    p_(i)/i is at the last of the tied ones - the rank that decides alone when alpha puts it on its line"""
+    pool = labels[:]
+    rng.shuffle(pool)
+    edges, seen = [], set()
+    for size in rng.sample([2, 2, 3, 4], rng.choice([1, 1, 2])):
+        k = min(rng.randint(3, 6), (len(pool) - size + 1) // size)
+        if k < 2:
+            continue
+        w0 = rng.choice([2, 3, 4, 5, 6, 8])
+        twins = [tuple(sorted(pool[j * size:(j + 1) * size])) for j in range(k)]
+        outside = pool[k * size:k * size + size - 1]
+        plain = rng.choice([1, 1, 1, 2])
+        for j, e in enumerate(twins):
+            if e in seen:
+                continue
+            seen.add(e)
+            edges.append([list(e), w0])
+            if j >= plain:
+                f = tuple(sorted([rng.choice(e)] + outside))
+                if f not in seen:
+                    seen.add(f)
+                    edges.append([list(f), rng.choice([1, 1, 1, 2])])
+        rng.shuffle(pool)
+    for _ in range(rng.randint(0, 2)):
+        size = min(len(labels), rng.choice([1, 2, 3]))
+        e = tuple(sorted(rng.sample(labels, size)))
+        if e not in seen:
+            seen.add(e)
+            edges.append([list(e), rng.choice([1, 1, 2])])
+    rng.shuffle(edges)
+    return edges
+
+
+def svh_edges_dense(rng, labels):
+    """most of the C(n_a, n) hyperedges of one or two small sizes on 3-6 nodes: about as many tests as possible
+    hyperedges, so i*alpha/C(n_a,n) reaches the p-values near 1 with alpha <= 1 at the last ranks"""
+    import itertools
+    edges = []
+    for size in rng.sample([2, 3, 3, 4], rng.choice([1, 1, 2])):
+        if size > len(labels):
+            continue
+        keep = rng.choice([0.5, 0.8, 1.0, 1.0])
+        for e in itertools.combinations(labels, size):
+            if rng.random() < keep and list(e) not in [x for x, _ in edges]:
+                edges.append([list(e), rng.choice([1, 1, 1, 2, 2, 3, 4, 6, 12])])
+    if not edges:
+        edges.append([list(labels[:2]), 2])
     rng.shuffle(edges)
     return edges
 
@@ -1129,22 +1281,40 @@ def svh_edges_magnitude(rng, labels, big_weights, heavy):
     return edges
 
 
-def gen_svh_case(rng, heavy=False, huge=False):
-    """heavy: weights up to 70000 may occur (thorough tier); huge: they do (one case per quick run)"""
+def gen_svh_case(rng, heavy=False, huge=False, sparse=None):
+    """heavy: weights up to 70000 may occur (thorough tier); huge: they do (one case per quick run);
+    sparse: the size class (0, 1, 2) of a large sparse hypergraph that is generated whatever the dice say"""
     r = rng.random()
-    style = "random" if r < 0.5 else "twins" if r < 0.8 else "big_size" if r < 0.93 else "big_weight"
+    style = "random" if r < 0.47 else "twins" if r < 0.76 else "big_size" if r < 0.89 else "big_weight" if r < 0.965 else "sparse"
     if huge:
         style = "big_weight"
+    if sparse is not None:
+        style = "sparse"
+    if style == "sparse":
+        return gen_sparse_case(rng, heavy, sparse)
+    flavour = None
+    if style == "random" and rng.random() < 0.15:
+        flavour = "dense"
+    if style == "twins" and rng.random() < 0.5:
+        flavour = "close"
     n = rng.randint(3, 9) if style == "random" else rng.randint(5, 12) if style == "twins" else rng.randint(8, 16)
+    if flavour == "dense":
+        n = rng.randint(3, 6)
+    if flavour == "close":
+        n = rng.randint(8, 16)
     if rng.random() < 0.2:
         labels = sorted(rng.sample([chr(97 + i) for i in range(20)], n))
     else:
         labels = sorted(rng.sample(range(0, 40), n))
     weighted = style != "random" or rng.random() < 0.8
-    if style == "random":
+    if flavour == "dense":
+        edges = svh_edges_dense(rng, labels)
+    elif style == "random":
         edges = svh_edges_random(rng, labels, weighted)
+    elif flavour == "close":
+        edges = svh_edges_close(rng, labels)
     elif style == "twins":
-        edges = svh_edges_twins(rng, labels)
+        edges = svh_edges_twins(rng, labels, rng.random() < 0.5)
     else:
         edges = svh_edges_magnitude(rng, labels, style == "big_weight", 1.0 if huge else 0.03 if heavy else 0.0)
     top = max([len(e) for e, _ in edges] + [2])
@@ -1154,6 +1324,10 @@ def gen_svh_case(rng, heavy=False, huge=False):
         bound = rng.choice([top, top, 12, 20, top - 1, 10])
     else:
         bound = rng.choice([0, 1, 2, 3, 3, 4, 4, 5, 6, 10])
+    if flavour and rng.random() < 0.7:
+        bound = rng.choice([top, 10])
+    if flavour:
+        style = style + "/" + flavour
     case = {"part": "svh", "style": style, "labels": labels, "weighted": weighted, "edges": edges,
             "max_order": bound, "alpha": rng.choice(FIXED_ALPHAS), "mp": False}
     # history: hyperedges that are inserted and removed again, weights that arrive in two instalments, isolated nodes
@@ -1181,30 +1355,111 @@ def gen_svh_case(rng, heavy=False, huge=False):
         e_new = tuple(sorted(rng.sample(used if len(used) >= len(e_old) else labels, len(e_old))))
         if e_new not in present:
             case["again"] = {"remove": [list(e_old), w_old], "add": list(e_new)}
-    if rng.random() < (0.7 if style == "twins" else 0.4):
+    if rng.random() < (0.7 if style.startswith("twins") else 0.4):
         E = [(tuple(e), (w if weighted else 1)) for e, w in edges]
         a, nonmono = pick_alpha(rng, E, bound)
         if a is not None:
             case["alpha"] = a
             case["alpha_how"] = "between breakpoints" + (", not a prefix" if nonmono else "")
+    if "again" not in case and rng.random() < (1.0 if flavour else 0.15 if style == "big_weight" else 0.4 if style == "big_size" else 0.6):
+        case["line_seed"] = rng.randrange(1 << 30)      # a further call with alpha on the line of a reported p-value
     return svh_relabel(rng, case)
+
+
+SPARSE_CLASSES = [
+    # (hyperedges, sizes): prod K_i/N from 1e-8 down to 1e-45
+    ((20, 45), (8, 9, 10, 11, 12)),        # small enough for the model; p-values around 1e-12 .. 1e-20
+    ((150, 400), (4, 5, 6, 7)),            # p-values around 1e-7 .. 1e-15
+    ((500, 1200), (8, 10, 12, 14)),        # p-values around 1e-19 .. 1e-40
+]
+
+
+def gen_sparse_case(rng, heavy, cls=None):
+    """many hyperedges of one large size that are seen once and hardly share nodes: N large, every K_i 1 (2, 3 for a
+    few shared nodes), so prod_i K_i/N is 1e-8 .. 1e-45 and every p-value is tiny (but never 0). Stored as a recipe."""
+    if cls is None:
+        cls = rng.choice([0, 0, 1, 1, 2])
+    (lo, hi), sizes = SPARSE_CLASSES[cls]
+    m = rng.randint(lo, hi) * (rng.choice([1, 1, 3]) if heavy and cls == 2 else 1)
+    size = rng.choice(sizes)
+    weighted = rng.random() < 0.6
+    rc = {"seed": rng.randrange(1 << 30), "m": m, "size": size, "share": rng.choice([0, 0, 0.01, 0.05, 0.15]),
+          "heavy": rng.choice([0, 0, 1, 2, 4]) if weighted else 0, "extra": rng.choice([0, 0, 2, 5]),
+          "ghosts": rng.choice([0, 0, 0, 2]), "shift": rng.randint(0, 6)}
+    case = {"part": "svh", "style": "sparse", "weighted": weighted, "recipe": rc,
+            "max_order": rng.choice([size, size, size, size + 1, 20, 10 if size <= 10 else size]),
+            "alpha": rng.choice(FIXED_ALPHAS), "mp": False,
+            "fresh": rng.randrange(1 << 30), "weight_kind": rng.choice(["int", "int", "int64", "int16", "uint8"]),
+            "label_kind": rng.choice(SVH_LABEL_KINDS), "np_args": rng.random() < 0.12}
+    if m <= 400 and rng.random() < 0.5:
+        case["line_seed"] = rng.randrange(1 << 30)
+    return case
+
+
+def expand_sparse(case):
+    """the case with labels / edges / history made from its recipe (own PRNG; the recipe is what is stored and replayed)"""
+    import random
+    rc = case["recipe"]
+    rnd = random.Random(rc["seed"])
+    m, size, share = rc["m"], rc["size"], rc["share"]
+    edges, seen, used, nxt = [], set(), [], 0
+    while len(edges) < m:
+        e = set()
+        while len(e) < size:
+            if used and rnd.random() < share:
+                e.add(rnd.choice(used[-40 * size:]))
+            else:
+                e.add(nxt)
+                nxt += 1
+        e = tuple(sorted(e))
+        if e in seen:
+            continue
+        seen.add(e)
+        used.extend(e)
+        edges.append([list(e), 1])
+    if case["weighted"]:
+        for j in rnd.sample(range(m), min(m, rc["heavy"])):
+            edges[j][1] = rnd.choice([2, 2, 3, 4])
+    for _ in range(rc["extra"]):
+        e = tuple(sorted(rnd.sample(range(nxt), rnd.choice([2, 2, 3, size - 1]))))
+        if e not in seen:
+            seen.add(e)
+            edges.append([list(e), rnd.choice([1, 1, 2, 3]) if case["weighted"] else 1])
+    ghosts = []
+    for _ in range(rc["ghosts"]):
+        e = tuple(sorted(rnd.sample(range(nxt), size)))
+        if e not in seen:
+            seen.add(e)
+            ghosts.append([rnd.randint(0, len(edges)), list(e), rnd.choice([1, 2, 5]) if case["weighted"] else 1])
+    # node ids in no particular relation to the order of insertion
+    perm = list(range(nxt))
+    rnd.shuffle(perm)
+    rnd.shuffle(edges)
+    f = svh_label_map(case["label_kind"], rc["shift"], wide=True)
+    conv = lambda e: sorted((f(perm[x]) for x in e), key=lab)
+    full = dict(case)
+    full["labels"] = [f(i) for i in range(nxt)]
+    full["edges"] = [[conv(e), w] for e, w in edges]
+    if ghosts:
+        full["history"] = {"ghost_edges": [[pos, conv(e), w] for pos, e, w in ghosts]}
+    return full
 
 
 SVH_LABEL_KINDS = ["small", "small", "str", "big", "huge", "huge", "float", "mixed_num", "mixed_num", "tuple", "npint", "npint"]
 
 
-def svh_label_map(kind, shift):
-    """strictly increasing map from the generator's labels (ints 0..39 or letters) to label objects of a kind, in the
-    JSON form of a case (a tuple label is a list)"""
+def svh_label_map(kind, shift, wide=False):
+    """strictly increasing map from the generator's labels (ints 0..39 or letters; wide: any index) to label objects of
+    a kind, in the JSON form of a case (a tuple label is a list)"""
     def f(i):
         if kind == "str":
-            return "n%02d-%s" % (i, "xyz"[i % 3])
+            return ("n%06d-%s" if wide else "n%02d-%s") % (i, "xyz"[i % 3])
         if kind == "big":
             return 257 + 7 * i if i < 20 else 10 ** 6 + i
         if kind == "huge":
             # bands: small, around 2**53, below 2**63, above 2**63, beyond 2**64, 2**70: neighbours of one band
             # collapse when something turns them into float64, bands below and above 2**63 do not fit one integer dtype
-            band = (i + shift) // 7
+            band = min((i + shift) // 7, 6)
             return [i, 2 ** 53 + i, 2 ** 63 - 60 + i, 2 ** 63 + i, 2 ** 64 + i, 2 ** 70 + i, 2 ** 70 + 2 ** 64 + i][band]
         if kind == "float":
             return i * 0.25 + (1e15 if i >= 30 else 0.0)
@@ -1298,16 +1553,18 @@ def build_svh(case, F):
 
 
 def check_svh(ctx, drv, case):
+    full = expand_sparse(case) if "recipe" in case else case
     F = Fresh(case.get("fresh", 0), npints=case.get("label_kind") == "npint")
-    h, err = guarded(lambda: build_svh(case, F))
+    h, err = guarded(lambda: build_svh(full, F))
     if err:
         ctx.count("svh_build_failed")        # construction is C01's business
         return
     ctx.count("svh_labels_" + case.get("label_kind", "literal"))
     ctx.count("svh_weights_as_" + (case.get("weight_kind") or "int"))
-    if case.get("history"):
+    if full.get("history"):
         ctx.count("svh_history")
-    if not svh_round(ctx, drv, case, h, ""):
+    out = {}
+    if not svh_round(ctx, drv, case, h, "", full, out):
         return
     again = case.get("again")
     if again:
@@ -1321,11 +1578,62 @@ def check_svh(ctx, drv, case):
             ctx.count("svh_build_failed")
             return
         ctx.count("svh_second_call_on_same_object")
-        svh_round(ctx, drv, case, h, "[second call, after one hyperedge of the same object was replaced] ")
+        out = {}
+        if not svh_round(ctx, drv, case, h, "[second call, after one hyperedge of the same object was replaced] ", full, out):
+            return
+    if "line_seed" in case and not again and out.get("tables"):
+        # alpha is the caller's: put a sorted p-value EXACTLY on its line i*alpha/C(n_a,n) (or next to it), computed from
+        # the p-values the implementation has just reported; the derived case carries that alpha and is complete
+        derived = case_on_the_line(ctx, case, out["tables"])
+        if derived is not None:
+            h2, err = guarded(lambda: build_svh(full, Fresh(case.get("fresh", 0), npints=case.get("label_kind") == "npint")))
+            if err:
+                ctx.count("svh_build_failed")
+                return
+            svh_round(ctx, drv, derived, h2, "", {**full, "alpha": derived["alpha"]})
 
 
-def svh_round(ctx, drv, case, h, tag):
-    """one get_svh call on h, judged on the content h has now; False when something was reported"""
+LINE_HOW = ["on"] * 14 + ["below 1e-6", "below 1e-9", "below 1e-11", "above 1e-6", "above 1e-9", "above 1e-11",
+                          "ulps -1", "ulps -2", "ulps 1", "ulps 2"]
+
+
+def case_on_the_line(ctx, case, tables):
+    """the case with alpha moved onto (or next to) the line of one sorted p-value of one reported table; None when no
+    position of any table can be hit with an alpha in (0, 1]. Positions where counting `p == line` as below would change
+    the validated set are preferred"""
+    import random
+    rnd = random.Random(case["line_seed"])
+    cands = line_alphas([t for t in tables if len(t[2]) <= 400])
+    if not cands:
+        ctx.count("svh_line_no_alpha")
+        return None
+    telling = [c for c in cands if c[3]]
+    n, i, a, tell, clean = rnd.choice(telling if telling and rnd.random() < 0.85 else cands)
+    how = rnd.choice(LINE_HOW)
+    if how.startswith("below") or how.startswith("above"):
+        d = float(how.split()[1])
+        a2 = a * (1 - d) if how.startswith("below") else a * (1 + d)
+    elif how.startswith("ulps"):
+        a2 = ulps(a, int(how.split()[1]))
+    else:
+        a2 = a
+    if not (0 < a2 <= 1):
+        a2, how = a, "on"
+    ctx.count("svh_line_alpha_" + how.split()[0])
+    if how == "on":
+        ctx.count("svh_line_alpha_on_telling" if tell else "svh_line_alpha_on_same_outcome_either_way")
+        if clean:
+            ctx.count("svh_line_alpha_on_exact_rational_too")
+    derived = {k: v for k, v in case.items() if k not in ("line_seed", "again")}
+    derived["alpha"] = a2
+    derived["alpha_how"] = (f"p_({i}) of size {n} " + ("exactly on its line" if how == "on" else f"next to its line ({how})"))
+    return derived
+
+
+def svh_round(ctx, drv, case, h, tag, full=None, out=None):
+    """one get_svh call on h, judged on the content h has now; False when something was reported.
+    full: the case with its recipe expanded (labels); out: dict that receives the tables that were reported and judged"""
+    full = full or case
     from hypergraphx.filters.statistical_filters import get_svh
     bound, alpha, mp = case["max_order"], case["alpha"], case.get("mp", False)
     style = case.get("style", "random")
@@ -1336,7 +1644,7 @@ def svh_round(ctx, drv, case, h, tag):
         return False
     E = [(e, int(w)) for e, w in E]
     ctx.count("svh_style_" + style)
-    labels = sorted({lab(x) for x in case["labels"]} | {x for e, _ in E for x in e})
+    labels = sorted({lab(x) for x in full["labels"]} | {x for e, _ in E for x in e})
     rank = {x: i for i, x in enumerate(labels)}
     a_bound, a_alpha = bound, alpha
     if case.get("np_args"):
@@ -1377,7 +1685,7 @@ def svh_round(ctx, drv, case, h, tag):
         bad.append(f"sizes reported {sorted(got)}, hyperedge sizes within [2,{bound}] are {sizes}")
     a_exact = Fraction(alpha)
     skips = 0
-    n_valid = n_rows = n_nonprefix = n_overflow = 0
+    n_valid = n_rows = n_nonprefix = n_overflow = n_tiny = n_near = 0
     for n in sizes:
         if n not in got:
             continue
@@ -1385,11 +1693,11 @@ def svh_round(ctx, drv, case, h, tag):
         N, na, C, exact_rows = tables[n]
         par = {e: (w, ks) for e, w, ks in exact_rows}
         listed = [tuple(sorted(r[0])) for r in rows]
+        times = collections.Counter(listed)
         for e in par:
-            c = listed.count(e)
-            if c != 1:
-                bad.append(f"hyperedge {e!r} is reported {c} times under size {n}")
-        for e in listed:
+            if times[e] != 1:
+                bad.append(f"hyperedge {e!r} is reported {times[e]} times under size {n}")
+        for e in times:
             if e not in par:
                 bad.append(f"row {e!r} under size {n} is not a size-{n} hyperedge of the input")
         ps = []
@@ -1403,27 +1711,32 @@ def svh_round(ctx, drv, case, h, tag):
             ok, want, cond = p_ok(p, n, N, w, ks)
             if cond:
                 ctx.count("svh_p_conditioning_" + ("accepted" if ok else "rejected"))
+            if want < TINY:
+                n_tiny += 1
             if not ok:
-                bad.append(f"p-value of {e!r} is {p!r}, P(Bin({N}, prod K_i/N) >= {w}) with K = {list(ks)} is {float(want)!r}")
+                bad.append(f"p-value of {e!r} is {p!r}, P(Bin({N}, prod K_i/N) >= {w}) with K = {list(ks)} is {float(want)!r}"
+                           f" (relative error {float(abs(Fraction(p) - want) / want) if want else 0.0:.3g})")
             ps.append(Fraction(p))
         bonf = a_exact / C
-        thr, tight, prefix, thr_exact = step_up(ps, a_exact, C)
+        thr, tight, prefix, near = step_up(ps, alpha, C, binom_is_double(na, n))
+        n_near += near
         if not prefix:
             n_nonprefix += 1
         if tight:
             skips += 1
         else:
             for e, p, f in rows:
-                if undecidable(Fraction(p), thr, thr_exact):
+                b = below(Fraction(p), thr)
+                if b is None:
                     skips += 1
                     continue
-                if f != (Fraction(p) < thr):
-                    bad.append(f"hyperedge {e!r} (size {n}) has p={p!r} and validated={f}, the step-up threshold is {float(thr)!r}"
+                if f != b:
+                    bad.append(f"hyperedge {e!r} (size {n}) has p={p!r} and validated={f}, the step-up threshold is {float(thr[0])!r}"
                                f" (sorted p-values {sorted(float(x) for x in ps)[:8]}, alpha/C({na},{n}) = {float(bonf)!r})")
-        for e, p, f in rows:
-            for e2, p2, f2 in rows:
-                if p <= p2 and f2 and not f:
-                    bad.append(f"{e2!r} (p={p2!r}) is validated while {e!r} (p={p!r}) is not")
+        top_valid = max([(p, e) for e, p, f in rows if f], default=None)
+        low_not = min([(p, e) for e, p, f in rows if not f], default=None)
+        if top_valid is not None and low_not is not None and low_not[0] <= top_valid[0]:
+            bad.append(f"{top_valid[1]!r} (p={top_valid[0]!r}) is validated while {low_not[1]!r} (p={low_not[0]!r}) is not")
         n_rows += len(rows)
         n_valid += sum(1 for r in rows if r[2])
     ctx.count("svh_margin_skips", skips)
@@ -1431,6 +1744,8 @@ def svh_round(ctx, drv, case, h, tag):
     ctx.count("svh_rows_validated", n_valid)
     ctx.count("svh_tables_not_a_prefix", n_nonprefix)
     ctx.count("svh_rows_prod_K_over_2^63", n_overflow)
+    ctx.count("svh_rows_p_below_1e-12", n_tiny)
+    ctx.count("svh_positions_on_or_next_to_their_line_decided", n_near)
     if "alpha_how" in case:
         ctx.count("svh_alpha_between_breakpoints")
     nontrivial = ((len(sizes) >= 2 and 0 < n_valid < n_rows) or any(w >= 2 and 2 <= len(e) <= bound for e, w in E)
@@ -1440,6 +1755,9 @@ def svh_round(ctx, drv, case, h, tag):
         ctx.violation(case, tag + b)
     if bad:
         return False
+    if out is not None:
+        out["tables"] = [(n, tables[n][2], sorted(r[1] for r in got[n])) for n in sizes
+                         if n in got and binom_is_double(tables[n][1], n)]
     if drv is None:
         return True
     # ---- model
@@ -1483,11 +1801,13 @@ def svh_round(ctx, drv, case, h, tag):
         t = Fraction(t)
         flags = [x == 1 for x in hgxv.dec_list(flags)]
         ps = [Fraction(r[1]) for r in rows]
-        _, tight, _, t_exact = step_up(ps, a_exact, tables[n][2])
+        thr, tight, _, _ = step_up(ps, alpha, tables[n][2], binom_is_double(tables[n][1], n))
         if tight:
             continue
+        if t != thr[0]:
+            ctx.disagree({**case, "line": ln}, f"size {n}: model threshold {float(t)!r}, the step-up rule on the implementation's p-values gives {float(thr[0])!r}")
         for (e, gp, gf), mf in zip(rows, flags):
-            if undecidable(Fraction(gp), t, t_exact):
+            if below(Fraction(gp), thr) is None:
                 continue
             if gf != mf:
                 ctx.disagree({**case, "line": ln}, f"size {n} row {e!r}: model validated={mf} (threshold {float(t)!r}), implementation {gf}")
@@ -1519,9 +1839,11 @@ def run(ctx):
         if ctx.too_many() or (ctx.time_left() is not None and ctx.time_left() < (budget or 0) * 0.55 + 5):
             break
     for i in range(nB):
-        case = gen_svh_case(rng, heavy=ctx.tier == "thorough", huge=(i == 20))
-        if i % 250 == 7 if ctx.tier == "thorough" else i % 90 == 7:
-            case["mp"] = True
+        # fixed positions: one huge-weight case, six large sparse hypergraphs (two of each size class); more by the dice
+        case = gen_svh_case(rng, heavy=ctx.tier == "thorough", huge=(i == 20),
+                            sparse={25: 0, 26: 1, 27: 2, 125: 0, 126: 1, 127: 2}.get(i))
+        if (i % 250 == 7 if ctx.tier == "thorough" else i % 90 == 7) or i == 126:
+            case["mp"] = True           # (126: one of the large sparse hypergraphs goes through the process pool)
         safely(ctx, check_svh, drv, case)
         if ctx.too_many() or (ctx.time_left() is not None and ctx.time_left() < 5):
             break
